@@ -532,6 +532,15 @@ func okBoundsCallerChecks(p []byte) []byte {
 	return head4(p)
 }
 
+func badBoundsToArray(p []byte) [16]byte { return [16]byte(p) }
+
+func okBoundsToArrayChecked(p []byte) [16]byte {
+	if len(p) < 16 {
+		return [16]byte{}
+	}
+	return [16]byte(p)
+}
+
 func badBoundsHead8NotAllCallersCheck(p []byte) []byte { return p[:8] }
 
 func okBoundsCallerChecks8(p []byte) []byte {
